@@ -219,16 +219,18 @@ def gen_schemas(rng, n: int, cycles: bool = False, aliases: bool = True) -> dict
 
 def gen_operation(rng, path: str, method: str, opid: str, schemas: list[str], p_declared: float,
                   tags_mode: str = "any", skip_vars: bool = False, comp_refs: list[str] | None = None,
-                  sse: float = 0.0, body_ref: str | None = None) -> tuple[dict, list]:
+                  sse: float = 0.0, body_ref: str | None = None, tag_pool: list[str] | None = None,
+                  multi2xx: float = 0.0) -> tuple[dict, list]:
     """returns (operation node, path-level parameter list contribution).  skip_vars: the path variables are
     declared at path level; comp_refs: names of components.parameters to reference; sse: probability of a
     text/event-stream success response (the only thing that puts two plain imports into one module)"""
     vars_ = [] if skip_vars else re.findall(r"{([^}]+)}", path)
     op: dict[str, Any] = {"operationId": opid}
+    pool = tag_pool or TAG_POOL
     if tags_mode == "any":
         r = rng.random()
         if r < 0.55:
-            op["tags"] = [rng.choice(TAG_POOL)]
+            op["tags"] = [rng.choice(pool)]
         elif r < 0.65:
             op["tags"] = rng.sample(TAG_POOL, 2)
     elif tags_mode == "single":
@@ -282,6 +284,17 @@ def gen_operation(rng, path: str, method: str, opid: str, schemas: list[str], p_
         else:
             sch = {"type": "object", "properties": {"ok": {"type": "boolean"}}}
         resps[code] = {"description": "ok", "content": {"application/json": {"schema": sch}}}
+    if "text/event-stream" not in json.dumps(resps) and rng.random() < multi2xx:
+        # two or more success codes with DIFFERENT bodies, written out of the 200 > 201 > 202 > 204 priority order
+        bodies = [{"type": "string"}, {"type": "integer"}, {"type": "object", "properties": {"ok": {"type": "boolean"}}}]
+        if schemas:
+            bodies.append({"$ref": f"#/components/schemas/{schemas[0]}"})
+        codes2 = rng.sample(["200", "201", "202"], rng.randint(2, 3))
+        codes2.sort(reverse=rng.random() < 0.7)
+        rng.shuffle(bodies)
+        resps = {c: {"description": "ok " + c, "content": {"application/json": {"schema": b}}} for c, b in zip(codes2, bodies)}
+        if rng.random() < 0.3:
+            resps = {"204": {"description": "no content"}, **resps}
     for c in rng.sample(["400", "401", "404", "409", "422", "500", "503"], rng.randint(0, 3)):
         resps[c] = {"description": "error"}
     if rng.random() < 0.15:
@@ -302,7 +315,8 @@ COMPONENT_PARAMS = {
 
 def gen_spec(rng, *, p_declared: float = 0.85, cycles: bool = False, collide: float = 0.0,
              tags_mode: str = "any", n_paths: tuple[int, int] = (1, 4), shared_params: float = 0.0,
-             path_level: float = 0.0, sse: float = 0.0, shared_bodies: float = 0.0) -> dict:
+             path_level: float = 0.0, sse: float = 0.0, shared_bodies: float = 0.0, spelled_tags: float = 0.0,
+             multi2xx: float = 0.0) -> dict:
     """shared_params: probability that the document has components.parameters (with inline object / array-of-inline-enum
     schemas) referenced from operations of at least two different paths; path_level: probability per path (with
     template variables) that the variables and a header are declared as path-level `parameters`"""
@@ -311,6 +325,8 @@ def gen_spec(rng, *, p_declared: float = 0.85, cycles: bool = False, collide: fl
     paths: dict[str, Any] = {}
     k = 0
     used_ids: list[str] = []
+    # one tag group written in two EQUALLY scored spellings on different operations (underscore vs hyphen, same case)
+    tag_pool = TAG_POOL + ["order_items", "order-items", "order_items", "order-items"] if rng.random() < spelled_tags else None
     use_shared = rng.random() < shared_params
     # components.requestBodies (one with an inline object schema, one with a $ref schema) referenced by write
     # operations of at least two different paths: the promoted body model is named after the referencing operation
@@ -348,7 +364,7 @@ def gen_spec(rng, *, p_declared: float = 0.85, cycles: bool = False, collide: fl
             if use_bodies and method in ("post", "put") and (pi < 2 or rng.random() < 0.5):
                 bref = "WidgetBody" if (pi < 2 or not names or rng.random() < 0.6) else "RefBody"
             op, _ = gen_operation(rng, path, method, opid, names, p_declared, tags_mode, skip_vars=plevel,
-                                  comp_refs=refs, sse=sse, body_ref=bref)
+                                  comp_refs=refs, sse=sse, body_ref=bref, tag_pool=tag_pool, multi2xx=multi2xx)
             item[method] = op
         paths[path] = item
     d: dict[str, Any] = {"openapi": "3.0.3", "info": {"title": "T", "version": "1.0"}, "paths": paths}
@@ -1153,7 +1169,8 @@ def main(chk: Check, replay: dict | None = None) -> int:
     n_det = 24 if chk.thorough else 7
     for i in range(n_det):
         det_specs.append(gen_spec(rng, p_declared=0.9 if i % 3 else 0.5, cycles=(i % 4 == 3), collide=0.15 if i % 5 == 4 else 0.0,
-                                  shared_params=0.3, path_level=0.3, sse=0.35, shared_bodies=0.3))
+                                  shared_params=0.3, path_level=0.3, sse=0.35, shared_bodies=0.3, spelled_tags=0.5,
+                                  multi2xx=0.2))
     det_cases = []
     for spec in det_specs:
         r = run_det(spec, extra_seeds=["3", "4", "5", "17"] if chk.thorough else None)
